@@ -4,7 +4,7 @@
    Semantic-after on branches (flag locals) and function entry/exit are separate. *)
 From Coq Require Import List Arith NArith ZArith Bool Lia.
 Import ListNotations.
-From Orca Require Import Flat Tree WasmP SemProofs EvalP.
+From Orca Require Import Flat Tree TreeLower WasmP SemProofs EvalP.
 
 Section Sim.
 Variable ftypes : list (nat * nat).
@@ -14,38 +14,10 @@ Notation E := (exec ftypes F [] true).
 Notation evP := (evP ftypes).
 Notation ar := (arity ftypes).
 
-Definition bef i := f_before (F i).
-Definition aft i := f_after (F i).
-Definition be_ i := f_be (F i).
-Definition bx_ i := f_bx (F i).
-Definition sa_ i := f_sa (F i).
+Notation bef := (bef F). Notation aft := (aft F). Notation be_ := (be_ F).
+Notation bx_ := (bx_ F). Notation sa_ := (sa_ F). Notation else_sa := (else_sa F). Notation lower := (lower F).
 
 Hypothesis Hcode : forall i, pcode (bef i) /\ pcode (aft i) /\ pcode (be_ i) /\ pcode (bx_ i) /\ pcode (sa_ i).
-
-Definition else_sa (el : option nat) := match el with Some x => sa_ x | None => [] end.
-
-Fixpoint lower (x : instr) : list instr :=
-  match x with
-  | IPlain i o => ins (bef i) ++ [IPlain i o] ++ ins (aft i)
-  | IBlock i e bt body =>
-      ins (bef i)
-      ++ [IBlock i e bt (ins (aft i ++ be_ i) ++ flat_map lower body ++ ins (bef e ++ bx_ i))]
-      ++ ins (aft e ++ sa_ i)
-  | ILoop i e bt body =>
-      ins (bef i)
-      ++ [ILoop i e bt (ins (aft i ++ be_ i) ++ flat_map lower body ++ ins (bef e ++ bx_ i))]
-      ++ ins (aft e ++ sa_ i)
-  | IIf i el e bt thn els =>
-      ins (bef i)
-      ++ [IIf i el e bt
-            (ins (aft i ++ be_ i) ++ flat_map lower thn
-             ++ ins (match el with Some x => bef x ++ bx_ i | None => bef e ++ bx_ i end))
-            (match el with
-             | Some x => ins (aft x ++ be_ x) ++ flat_map lower els ++ ins (bef e ++ bx_ x)
-             | None => []
-             end)]
-      ++ ins (aft e ++ sa_ i ++ else_sa el)
-  end.
 
 (* on loop re-entry the before-probes of the loop are not run again *)
 Definition lowerL (sb : bool) (is : list instr) : list instr :=
